@@ -6,6 +6,10 @@ From Coq Require Import List Arith ZArith Bool.
 From GT Require Import Base.Conc.
 From GT Require Import Base.ConcIR.
 From GT Require Import WGModel WGSpec WGSpecProofs WGInv WGProofs WGInv2 WGRefute WGProg WGDenote.
+From GT Require Import WGTimed WGTimedProofs WGFair.
+From GT Require Import Base.ConcIR2.
+From GT Require Import WGSim WGSimProps.
+From GT Require Import WGPropLemmas.
 Import ListNotations.
 Local Open Scope Z_scope.
 
@@ -21,12 +25,7 @@ Theorem C02_rest : forall progs sched,
   (0 < sum_deltas (tr cf) -> forall tid todo,
      nth_error (thr cf) tid = Some (Idle (CWait :: todo)) ->
      exists x, solo_wait_result cf tid = Some x /\ ~ In x (closed (sh (wg_solo cf tid 2)))).
-Proof.
-  intros progs sched cf Hrest. pose proof (Inv_exec progs sched) as HI. fold cf in HI.
-  split; [apply rest_count; auto|]. split.
-  - apply rest_zero_closed; auto.
-  - apply rest_positive_open; auto.
-Qed.
+Proof. exact p_C02_rest. Qed.
 
 (* the same statement as the executable monitor that also judges the traces recorded from the
    real code: at every position at rest Count = sum of deltas, sum = 0 -> all handed-out channels
@@ -43,19 +42,34 @@ Proof. exact c02_all. Qed.
 Theorem C02_monitor_sound : forall t, c02_ok t = true -> c02_spec t.
 Proof. exact c02_ok_spec. Qed.
 
+(* and for well-formed traces (checked by the executable trace_wf on every recorded trace) the
+   monitor is EXACTLY that sentence: a rejected recording violates it *)
+Theorem C02_monitor_exact : forall t, trace_wf t = true -> (c02_ok t = true <-> c02_spec t).
+Proof. exact c02_ok_iff_spec. Qed.
+
 Theorem C02_declarative : forall progs sched, c02_spec (tr (wg_exec progs sched)).
-Proof. intros. apply c02_ok_spec. apply c02_all. Qed.
+Proof. exact p_C02_declarative. Qed.
 
 (* and of the denotation of the IR of the current source (see C01_machine_is_denotation) *)
 Theorem C02_denoted : forall progs sched,
   c02_ok (tr (dwg_exec hand_prog progs sched)) = true /\
   (adds_in_flight (tr (dwg_exec hand_prog progs sched)) = [] ->
    cnt (sh (dwg_exec hand_prog progs sched)) = sum_deltas (tr (dwg_exec hand_prog progs sched))).
-Proof.
-  intros progs sched. destruct (denote_current progs sched) as [-> ->]. split.
-  - apply c02_all.
-  - intro H. apply rest_count; [apply Inv_exec|exact H].
-Qed.
+Proof. exact p_C02_denoted. Qed.
+
+(* and of the denotation of ANY IR term that passes the simulation check-list of WGSim.v - which
+   the check proves for the term regenerated from the source on every run (see C01.v) *)
+Theorem C02_any_source : forall p sm, wg_sim_ok p sm -> forall progs sched,
+  c02_ok (tr (dwg2_exec p sm progs sched)) = true.
+Proof. exact C02_of_source. Qed.
+
+Theorem C02_rest_any_source : forall p sm, wg_sim_ok p sm -> forall progs sched,
+  adds_in_flight (tr (dwg2_exec p sm progs sched)) = [] ->
+  cnt (sh (dwg2_exec p sm progs sched)) = sum_deltas (tr (dwg2_exec p sm progs sched)) /\
+  (sum_deltas (tr (dwg2_exec p sm progs sched)) = 0 ->
+   forall x, In x (handed_out (tr (dwg2_exec p sm progs sched))) ->
+             In x (closed (sh (dwg2_exec p sm progs sched)))).
+Proof. exact C02_rest_of_source. Qed.
 
 (* Count() is a single load returning that count *)
 Theorem C02_count_call : forall cf tid todo,
@@ -71,12 +85,59 @@ Theorem C02_wait_bounded : forall cf, wg_reachable cf ->
   exists x o st, tr (wg_solo cf tid 1) = Item tid (ERet CWait (RChan x)) o st :: tr cf.
 Proof. exact wait_bounded. Qed.
 
+(* the same over FAIR schedules: from any reachable configuration with a thread inside Wait, under
+   ANY continuation of the schedule that schedules this thread at all, the thread's first
+   scheduling is the return of its Wait - whatever the other goroutines do before it (Adds in
+   flight or not, started or not): Wait never waits for anybody *)
+Theorem C02_wait_fair : forall cf, wg_reachable cf ->
+  forall tid l todo, nth_error (thr cf) tid = Some (Run CWait l todo) ->
+  forall sched, In tid sched ->
+  exists pre rest x o st,
+    sched = pre ++ tid :: rest /\ ~ In tid pre /\
+    tr (wg_run cf (pre ++ [tid])) = Item tid (ERet CWait (RChan x)) o st :: tr (wg_run cf pre) /\
+    nth_error (thr (wg_run cf (pre ++ [tid]))) tid = Some (Idle todo).
+Proof. exact wait_returns_when_scheduled. Qed.
+
 (* and two micro-steps (call, load) from before the call; it returns the installed channel *)
 Theorem C02_wait_from_call : forall cf tid todo,
   nth_error (thr cf) tid = Some (Idle (CWait :: todo)) ->
   solo_wait_result cf tid = Some (chn (sh cf)) /\ sh (wg_solo cf tid 2) = sh cf /\
   nth_error (thr (wg_solo cf tid 2)) tid = Some (Idle todo).
 Proof. exact solo_wait_fresh. Qed.
+
+(* ---- WaitTimeout / WaitCTX (model: WGTimed.v; [TW0 k] = the call with its deadline k of its own
+   scheduling attempts away; each attempt sees an ARBITRARY memory and an oracle bit) ----
+   they honour their deadline whatever the count is and whatever the other goroutines do: k + 2
+   schedulings (one load of wg.Wait(), k + 1 attempts of the select) always produce a result *)
+Theorem C02_deadline_honoured : forall k env, (k + 2 <= length env)%nat ->
+  exists r n, tw_run (TW0 k) env = Some (r, n) /\ (n <= k + 2)%nat.
+Proof. exact tw_bounded. Qed.
+
+(* nil is answered only when the channel loaded at entry is closed at that attempt (so, by C01,
+   the count was zero at some instant since the call) *)
+Theorem C02_deadline_nil_sound : forall k s0 b0 env n,
+  tw_run (TW0 k) ((s0, b0) :: env) = Some (TNil, n) ->
+  exists s b, nth_error env (n - 2) = Some (s, b) /\ memb (chn s0) (closed s) = true.
+Proof. exact tw_nil_sound. Qed.
+
+(* the deadline's error is answered at the deadline, never before *)
+Theorem C02_deadline_error_sound : forall k env n,
+  tw_run (TW0 k) env = Some (TDeadline, n) -> n = (k + 2)%nat.
+Proof. exact tw_deadline_sound. Qed.
+
+(* on the reachable memories of the wait group: with a non-zero count (others standing still)
+   the answer is the deadline's error at the deadline; with count zero it is nil at once *)
+Theorem C02_deadline_positive_count : forall progs sched k bits,
+  let cf := wg_exec progs sched in
+  cnt (sh cf) <> 0 -> length bits = (k + 2)%nat ->
+  tw_run (TW0 k) (map (fun b => (sh cf, b)) bits) = Some (TDeadline, (k + 2)%nat).
+Proof. exact timed_positive_count. Qed.
+
+Theorem C02_deadline_zero_count : forall progs sched k b0 b1 rest,
+  let cf := wg_exec progs sched in
+  cnt (sh cf) = 0 ->
+  tw_run (TW0 (S k)) ((sh cf, b0) :: (sh cf, b1) :: rest) = Some (TNil, 2%nat).
+Proof. exact timed_zero_count. Qed.
 
 (* non-vacuity: a reachable state at rest after a decrement overlapping an increment (T0's
    first CAS fails and is retried): count 1 = sum of deltas, a fresh Wait gets the open
@@ -104,23 +165,46 @@ Theorem C02_orig_refuted : exists progs sched,
   well_behaved (tr cf) = true /\ adds_in_flight (tr cf) = [] /\ sum_deltas (tr cf) = 1 /\
   exists tid, forall k, exists l todo,
     nth_error (thr (wgo_solo cf tid (S (S k)))) tid = Some (Run CWait l todo).
-Proof.
-  exists c02_witness_progs, c02_witness_sched.
-  destruct c02_orig_witness_state as (H1 & H2 & H3 & _).
-  repeat split; auto. exists 2%nat. exact c02_orig_wait_spins.
-Qed.
+Proof. exact p_C02_orig_refuted. Qed.
 
 Theorem C02_orig_refuted_monitor : exists progs sched,
   well_behaved (tr (wgo_exec progs sched)) = true /\ c02_ok (tr (wgo_exec progs sched)) = false.
-Proof. eexists _, _. exact c02_orig_refuted_trace. Qed.
+Proof. exact p_C02_orig_refuted_monitor. Qed.
+
+(* the steps inside Wait are counted per goroutine: the spinning Wait of the pinned code is
+   rejected also when stutters / another waiter's steps are interleaved with its own *)
+Theorem C02_orig_refuted_interleaved :
+  c02_ok (tr (wgo_exec c02_witness_progs
+                (c02_witness_sched ++ [2; 7; 2; 7; 2; 7; 2; 7; 2; 7; 2; 7]%nat))) = false /\
+  c02_ok (tr (wgo_exec (c02_witness_progs ++ [[CWait]])
+                (c02_witness_sched ++ [2; 3; 2; 3; 2; 3; 2; 3; 2; 3; 2; 3]%nat))) = false.
+Proof. exact c02_orig_refuted_interleaved. Qed.
+
+(* non-vacuity of the step count: an accepted trace with a thread inside Wait after one internal
+   step made at rest *)
+Example C02_example_wait_steps :
+  let t := tr (wgo_exec [[CWait]] [0; 0]%nat) in
+  c02_ok t = true /\ in_call t 0%nat = Some CWait /\ rest_steps t 0%nat = 1%nat /\
+  c02_ok (tr (wgo_exec [[CWait]] [0; 0; 0]%nat)) = true.
+Proof. exact c02_wait_steps_example. Qed.
 
 Print Assumptions C02_rest.
 Print Assumptions C02_monitor.
 Print Assumptions C02_monitor_sound.
+Print Assumptions C02_monitor_exact.
+Print Assumptions C02_orig_refuted_interleaved.
 Print Assumptions C02_declarative.
 Print Assumptions C02_denoted.
+Print Assumptions C02_deadline_honoured.
+Print Assumptions C02_deadline_nil_sound.
+Print Assumptions C02_deadline_error_sound.
+Print Assumptions C02_deadline_positive_count.
+Print Assumptions C02_deadline_zero_count.
+Print Assumptions C02_any_source.
+Print Assumptions C02_rest_any_source.
 Print Assumptions C02_count_call.
 Print Assumptions C02_wait_bounded.
+Print Assumptions C02_wait_fair.
 Print Assumptions C02_wait_from_call.
 Print Assumptions C02_orig_refuted.
 Print Assumptions C02_orig_refuted_monitor.
